@@ -106,8 +106,32 @@ def t3Mark (now maxTsnRetransmits : Nat) : List SRec → Nat → List SRec
       else { r1 with sentMs := now } :: t3Mark now maxTsnRetransmits rest count
     else r :: t3Mark now maxTsnRetransmits rest count
 
-/-- `handle_timeout` after expiry: marking, `flight_size := 0` -/
+/-- `handle_timeout` after expiry: marking, `flight_size := 0`, window collapse
+(`ssthresh = max(cwnd/2, 4·MTU)`, `cwnd = max(ssthresh, CWND_MIN_AFTER_RTO)` = `ssthresh`) -/
 def t3Fire (s : Tx) (now maxTsnRetransmits : Nat) : Tx :=
-  { s with sentQ := t3Mark now maxTsnRetransmits s.sentQ 0, flight := 0 }
+  { s with sentQ := t3Mark now maxTsnRetransmits s.sentQ 0, flight := 0,
+           cwnd := max (max (s.cwnd / 2) (4 * sctpMaxPacket)) (4 * sctpMaxPacket) }
+
+/-- `handle_timeout`: fires only if some unacknowledged, non-abandoned record is older than the RTO -/
+def handleTimeout (s : Tx) (now rto maxTsnRetransmits : Nat) : Tx :=
+  if s.sentQ.any (fun r => !r.acked && !r.abandoned && now ≥ r.sentMs + rto) then t3Fire s now maxTsnRetransmits
+  else s
+
+/-- last record (highest key) that is neither acked nor abandoned: `iter().rev().find(..)` -/
+def tlpTail (q : List SRec) : Option UInt32 :=
+  (q.reverse.find? (fun r => !r.acked && !r.abandoned)).map (·.tsn)
+
+/-- `maybe_send_tlp_probe` when no probe is outstanding: the tail record is marked for one
+retransmission and counted in flight -/
+def tlpProbe (s : Tx) (now : Nat) : Tx :=
+  match tlpTail s.sentQ with
+  | none => s
+  | some t =>
+    let fl := match s.sentQ.find? (fun r => r.tsn == t) with
+      | some r => if r.inFlight then s.flight else s.flight + r.len
+      | none => s.flight
+    { s with flight := fl,
+             sentQ := s.sentQ.map (fun r => if r.tsn == t then
+               { r with needsRetransmit := true, transmitCount := r.transmitCount + 1, sentMs := now, inFlight := true } else r) }
 
 end RtcModel.Sctp
